@@ -392,6 +392,7 @@ fn c18(ctx: &mut Ctx, w: &World, st: &St, t: &PTx, _params: &Params, fin: &Finis
     for k in &st.m.certs {
         match w.certs[*k].script {
             Some(2) => needs.push((w.plutus[1].hash().to_bytes(), false, format!("cert {}", k))),
+            Some(1) => needs.push((w.native[1].hash().to_bytes(), false, format!("cert {}", k))),
             Some(_) => needs.push((w.native[0].hash().to_bytes(), false, format!("cert {}", k))),
             None => {}
         }
